@@ -111,6 +111,28 @@ fn main() {
             };
             replay_cmd(&prop, path)
         }
+        // seed corpus of the coverage-guided companion targets in /verif/fuzz
+        "--fuzz-seeds" => {
+            let Some(dir) = args.get(3) else {
+                eprintln!("--fuzz-seeds needs a directory");
+                std::process::exit(2);
+            };
+            let _ = std::fs::create_dir_all(dir);
+            vkit::runner::install_panic_hook();
+            vkit::runner::set_quiet(true);
+            let n = match id.as_str() {
+                #[cfg(feature = "c03")]
+                "C03" => c03::fuzz_seeds(dir, 60, seed),
+                #[cfg(feature = "c07")]
+                "C07" => c07::fuzz_seeds(dir),
+                _ => {
+                    eprintln!("no fuzz target for {}", id);
+                    std::process::exit(2);
+                }
+            };
+            println!("{} seed files written to {}", n, dir);
+            0
+        }
         "quick" => run_prop(&prop, Tier::Quick, seed).exit_code,
         "thorough" => run_prop(&prop, Tier::Thorough, seed).exit_code,
         other => {
